@@ -1399,6 +1399,12 @@ pub fn gen_paths(rng: &mut Rng) -> Vec<(u8, bool)> {
             _ => v.push((p, false)),
         }
     }
+    // (added after A18-C13r) the configured list is a Vec: an entry may be listed twice (`-w a -w a`)
+    if !v.is_empty() && rng.chance(1, 6) {
+        let dup = v[rng.below(v.len() as u64) as usize];
+        let at = rng.below(v.len() as u64 + 1) as usize;
+        v.insert(at, dup);
+    }
     v
 }
 
